@@ -152,9 +152,33 @@ def r2(ctx, facts, cfg):
     ctx.ob("C18.R2e", "_process_transit_event:flush_backtrace-replays", ok, "a FlushBacktrace event replays the ring", fn=f)
     # replay callbacks dispatch to the sinks
     lams = [x for x in facts.fns if x.config == cfg and x.rec.get("parent") == f.name]
-    ok = len(lams) >= 2 and all(l.calls(r"::_dispatch_transit_event_to_sinks$") for l in lams)
+    from rules.common import try_stack, has_catch_all
+
+    def dispatch_sites(fn_, depth=0):
+        """[(function, call)] of the calls of the normal dispatch made by fn_, directly or through one member function of the worker"""
+        out = [(fn_, c) for c in fn_.calls(r"::_dispatch_transit_event_to_sinks$")]
+        if not out and depth == 0:
+            for c in fn_.calls(r"BackendWorker::_\w+$"):
+                for h in facts.fn_re("^" + re.escape(short(c["callee"])) + "$", cfg)[:1]:
+                    out += dispatch_sites(h, 1)
+        return out
+    sites = {l.name: dispatch_sites(l) for l in lams}
+    ok = len(lams) >= 2 and all(sites[l.name] for l in lams)
     ctx.ob("C18.R2f", "_process_transit_event:replay-callback-dispatches", ok,
-           "every replay callback writes the stored statement through the normal dispatch (%d callback(s))" % len(lams), fn=f)
+           "every replay callback writes the stored statement through the normal dispatch, directly or through a member function of the "
+           "worker (%d callback(s))" % len(lams), fn=f)
+    # R2k: 'once each' also when a sink throws: the ring forgets what it holds only after its loop over the stored statements, so an
+    # exception that leaves the callback ends the replay early (the rest is not written) and skips the forgetting (everything is written
+    # again by the next flush): every dispatch made for a replayed statement is enclosed by a catch-all that does not rethrow
+    contained = bool(lams)
+    for l in lams:
+        for (hf, c) in sites[l.name]:
+            tries = try_stack(hf, c)
+            if not any(has_catch_all(t) and not any(x["k"] == "CXXThrowExpr" for hd in (t.get("handlers") or []) for x in walk(hd)) for t in tries):
+                contained = False
+    ctx.ob("C18.R2k", "_process_transit_event:replayed-statement-contained", contained and ok,
+           "each replayed statement is dispatched under its own catch-all: a sink that throws loses that statement only, the replay goes on "
+           "and the ring is cleared after every statement had its turn (nothing left out, nothing written again by the next flush)", fn=f)
     # R2i: event routing: each arm is entered exactly on its own event
     ev = {}
     en_ = facts.enum("quill::MacroMetadata::Event", cfg)
